@@ -4,7 +4,9 @@ The prompt given to a fresh sub-agent that writes BEHAVIOUR-PRESERVING rewrites 
 (to measure false alarms: a check must stay quiet on code where the property still holds). The agent gets the property
 texts and its own scratch worktree /tmp/rf/<group>, nothing from /verif."""
 import json, sys
+import os
 group, ids = sys.argv[1], sys.argv[2:]
+ROUND2 = os.environ.get('RF_ROUND') == '2' 
 props = {json.loads(l)['id']: json.loads(l) for l in open('/verif/properties.jsonl')}
 wt = '/tmp/rf/' + group
 t = f"""You are helping to evaluate a verification tool by playing the role of a developer who REFACTORS code without changing what it does. Work ONLY inside the git worktree {wt} (a checkout of the Rust project w-henderson/Humphrey, a dependency-free HTTP server; `cargo` works offline: always pass --offline). Do not read or write anything under /verif, /work or /repo, and do not look for verification tooling — your rewrites must be independent of it.
@@ -31,6 +33,14 @@ Title: {d['title']}
 Statement: {d['statement']}
 Where it lives: files {', '.join(d['anchors']['files'])}; mechanisms: {mech}
 """
+if ROUND2:
+    a = t.index('For EACH of the properties listed below')
+    b = t.index('HARD REQUIREMENTS for every patch:')
+    t = t[:a] + """For EACH of the properties listed below, write TWO separate, independent patches (each against the clean checkout; name them <ID>_4.diff and <ID>_5.diff), each a realistic behaviour-preserving change of code in the files the property is anchored in (and the files it must touch as a consequence):
+  (4) a module-level restructuring: move a function, an impl block, a constant or a private type to another (possibly new) file or module of the same crate (updating `mod` / `use` lines), split a long function or file, reorder the items of a file, turn a free function into a method or the reverse, change the type of a private field or local collection (Vec <-> VecDeque, String <-> Box<str>, HashMap <-> BTreeMap where iteration order is not observable, u64 <-> usize where lossless), replace a hand-written loop by a standard-library function with identical semantics;
+  (5) a "modernisation / clippy" pass across the anchored files: let-else and `matches!`, `if let ... else` instead of match with one arm, iterator adaptors, `Self::` instead of the type name, `impl Trait` arguments, removing needless clones / allocations / `to_string()` calls, `?` on Option via ok_or, integer conversions via `from` / `try_from` where lossless, `#[derive(Default)]` instead of a hand-written identical impl, doc comments touched up. Several small edits spread over the anchored files in ONE patch.
+""" + t[b:]
+    t = t.replace('Each patch changes between 3 and 40 lines', 'Each patch changes between 10 and 100 lines').replace('(k = 1, 2, 3;', '(k = 4, 5;')
 t += f"""
 Your final message: the list of patch files you wrote with a one-line description each, and anything you were unsure about. Leave the worktree clean (only the untracked patches/ directory)."""
 open('/tmp/rf/prompt_%s.txt' % group, 'w').write(t)
